@@ -9,6 +9,7 @@ from .ir import Program, AnalysisError, norm
 VERIF = os.path.dirname(os.path.dirname(os.path.abspath(__file__)))
 KNOWN_FILE = os.path.join(VERIF, "known_findings.json")
 
+_PROGS = {}         # repo path -> Program (one parse per process; the tree does not change within a run)
 RULES = {}          # id -> Rule
 ORDER = []
 
@@ -158,7 +159,9 @@ def check_property(prop, tier, repo="/repo", seed=0, write_evidence=True, only_r
     """Returns exit code.  Prints VIOLATION / KNOWN-FINDING lines."""
     t0 = time.time()
     try:
-        prog = Program(repo)
+        prog = _PROGS.get(repo)
+        if prog is None:
+            prog = _PROGS[repo] = Program(repo)
         rids = rules_for(prop, tier)
         if only_rules:
             rids = [r for r in rids if r in only_rules]
